@@ -104,7 +104,7 @@ func genShape(r *engine.RNG, kind string, c06 bool) *engine.Shape {
 		off(7, 7, 11, 8, 0, 1)
 		if kind == "ls2" {
 			sh.N = r.PickInt(1, 1, 2, 3, 5, 16)
-			if !c06 && r.Chance(1, 10) {
+			if r.Chance(1, 10) {
 				sh.N = 0
 			}
 			sh.Size = r.PickInt(1, 1, 2, 3)
